@@ -179,11 +179,13 @@ theorem xpath_filter_faithful (sel : Str) (l : List XNode) (h : filterPart (some
 
 theorem unknown_filter_type_refused (ty : Str) : filterPart (some (.other ty)) = .error .operationError := rfl
 
-/-- get / get-config / dispatch / rpc, for ALL arguments: what is built carries only parameter elements the protocol defines
-    for that call — `target`, `source`, `filter`, `with-defaults`, `config` — each at most once and in the protocol's order. -/
-theorem retrieval_parameter_order (caps : Caps.Caps) (call : Retrieve.Call) (t : XNode) (h : Retrieve.build caps call = .ok t)
-    (hc : RetrieveP.rfcOrder call ≠ []) : (paramNames t).Sublist (RetrieveP.rfcOrder call) :=
-  RetrieveP.parameter_order caps call t h hc
+/-- get / get-config / get-schema / dispatch / rpc / create-subscription / validate and copy-config with element arguments / the
+    power operations, for ALL arguments: what is built carries only parameter elements the protocol defines for that call —
+    `target`, `source`, `filter`, `with-defaults`, `config`, `stream`, `startTime`, `stopTime`, `identifier`, `version`, `format` —
+    each at most once and in the protocol's order (`RetrieveP.rfcOrder`). -/
+theorem retrieval_parameter_order (caps : Caps.Caps) (call : Retrieve.Call) (t : XNode) (h : Retrieve.build caps call = .ok t) :
+    (paramNames t).Sublist (RetrieveP.rfcOrder call) :=
+  RetrieveP.parameter_order caps call t h
 
 example : (builtText (Retrieve.build (Caps.mk ["urn:ietf:params:netconf:capability:url:1.0?scheme=ftp".toList])
       (.rpc "cmd".toList (some "running".toList) (some "ftp://h/f".toList) (some (.xpath "/a".toList)) none)))
